@@ -62,6 +62,11 @@ CLAIMED.update({
    text='Forward map conformal (equal scale along meridian and parallel, orthogonal images), scale 1 on both standard parallels / k0 on the tangent parallel, origin -> (x0, y0), central meridian -> x = x0; inverse on images of the forward map: log argument positive in both hemispheres, longitude and isometric latitude recovered exactly, original latitude is a fixed point of the latitude loop at which its exit test holds.',
    note=TB_B + '; rounding (the 1e-11 rad tolerance), convergence and termination of the fixed-point loop are NOT decided by the proof (native replay only)', ref='DESIGN.md 4 (C03)'),
 })
+CLAIMED.update({
+ 'C07': dict(cat='other', technique='BOUNDED stand-in: SMT verification conditions over the reals generated from the real LeastSquares<double> member functions with the dynamic-size Eigen members bound to fixed sizes (2 unknowns, 4 allocated rows, 3 data rows); ldlt().solve by assumed contract; never counted as proved',
+   text='BOUNDED (estimate size 2, 4 allocated rows, data size 3, double): from any prior state of the solver object the normal matrix and right-hand side are those of the current rows only, the Cholesky estimate satisfies the normal equations of a full-rank problem and does not depend on the prior state, an affine preconditioner is applied as Ac x + Bc, the weighted estimate satisfies the normal equations of the weighted rows. The SVD path, resizing, float and all other sizes are NOT decided.',
+   note=TB_B + '; every obligation is labelled bounded in the evidence (coverage.bounded) and none is counted as discharged; JtJ.ldlt().solve(I) enters by the assumed contract adj/det', ref='DESIGN.md 9.8'),
+})
 COMMON_NA = "the deciding computation is a third-party header-only kernel that contract-based verification cannot reach here: CBMC's C++ front end does not parse Eigen/nanoflann, the extractor covers fixed-size coefficient-wise Eigen only, and a contract on the kernel would have to be assumed in full, after which nothing of the property is left to prove; switching to testing or model checking would be a different technique family (DESIGN.md 5, 9.6)"
 CLAIMED.update({
  'C04': dict(cat='proof', technique='SMT / exact-polynomial verification conditions on the extracted estimator with Eigen::JacobiSVD under an assumed contract (orthogonal U and V) and havocked accumulation loops; algebraic certificates; CBMC code contracts with a loop invariant for PreconditionedPointSet',
@@ -71,7 +76,6 @@ CLAIMED.update({
 NA = {
  'C05': 'point-to-plane least squares: the claim is optimality of an LDLT/SVD solve of accumulated normal equations on dynamic-size Eigen matrices, to O(t^2) and floating-point tolerances; %s',
  'C06': 'ICP + RANSAC convergence envelope on a data file: an empirical convergence statement about an iterative, randomised pipeline (nanoflann kd-tree, Eigen solvers, std::mt19937), not a per-call pre/postcondition; %s',
- 'C07': 'linear least-squares solver: minimiser / Cholesky-SVD agreement are Eigen decomposition facts; the contract-shaped clause (only the first dataSize rows are read) lives entirely inside dynamic-size Eigen block expressions (col(i).head(n).dot(...)), so a proof would be about a model of head(), not about repository code; %s',
  'C08': 'kd-tree queries: the search is about 1400 lines of vendored nanoflann templates (recursive tree build, heap result sets); the repository part is a forwarding call; %s',
  'C09': 'surface normals: eigenvector of Eigen::SelfAdjointEigenSolver on neighbourhoods returned by the nanoflann kd-tree; unit length, least-variance direction, curvature range and rotation equivariance are properties of that solver output in floating point (the sensor-facing flip alone decides no clause); %s',
 }
